@@ -43,11 +43,34 @@ package server
 // parameters have been written (thread-local view of `conf`, the copy that the deferred Update publishes).
 // from C08: "hold time min(local, remote)", "keepalive a third of it unless the configured one applies",
 // "peer type taken from the real remote AS"
+// from C08: "exactly the address families both sides announced, ADD-PATH send/receive per family only where the
+// peer announced the complementary direction": whatever ends up in the negotiated map is a family that is both
+// configured locally and announced by the peer (by a Multiprotocol capability, or IPv4 unicast by default),
+// and its ADD-PATH mode has a direction only if we configured it and the peer announced the opposite one.
+// (That every such family does end up in the map needs "the range visits every key", which the map model does
+// not give - DESIGN.md 8.)
+// logging helper: assumed free of side effects (not verified; listed in the evidence)
+//@ func (fsmStateReason).String
+//@   pure
+//@   spec-only
+//@ func open2Cap
+//@   requires open != nil && n != nil
+//@   claims frame step inv-init inv-keep
+//@   modifies nothing
+//@   loop 6 invariant forall f bgp.Family :: has(negotiated, f) ==> has(local, f) && has(remote, f)
+//@   loop 6 invariant forall f bgp.Family :: has(negotiated, f) ==> (negotiated[f] & bgp.BGP_ADD_PATH_SEND > 0 ==> local[f] & bgp.BGP_ADD_PATH_SEND > 0 && remote[f] & bgp.BGP_ADD_PATH_RECEIVE > 0)
+//@   loop 6 invariant forall f bgp.Family :: has(negotiated, f) ==> (negotiated[f] & bgp.BGP_ADD_PATH_RECEIVE > 0 ==> local[f] & bgp.BGP_ADD_PATH_RECEIVE > 0 && remote[f] & bgp.BGP_ADD_PATH_SEND > 0)
+//@   loop 6 step has(remote, family) ==> has(negotiated, family)
 //@ func (*fsm).stateChange
 //@   claims at-call
 //@   at-call fsm.gConf.IsConfederationMember( requires conf.Timers.State.NegotiatedHoldTime == (float64(body.HoldTime) > conf.Timers.Config.HoldTime ? conf.Timers.Config.HoldTime : float64(body.HoldTime))
 //@   at-call fsm.gConf.IsConfederationMember( requires conf.Timers.State.KeepaliveInterval == (conf.Timers.State.NegotiatedHoldTime < conf.Timers.Config.HoldTime ? conf.Timers.State.NegotiatedHoldTime / 3 : conf.Timers.Config.KeepaliveInterval)
 //@   at-call fsm.gConf.IsConfederationMember( requires fsm.isEBGP == (remoteAS != localAS)
+// from C08: "peer type taken from the real remote AS": with no configured peer AS the reported peer type is internal
+// exactly when the AS in the peer's OPEN is the session's local AS; otherwise the configured type is reported
+//@   at-call fsm.gConf.IsConfederationMember( requires asnNegotiationSkipped ==> (conf.State.PeerType == oc.PEER_TYPE_INTERNAL <==> remoteAS == localAS) && (conf.State.PeerType == oc.PEER_TYPE_INTERNAL || conf.State.PeerType == oc.PEER_TYPE_EXTERNAL)
+//@   at-call fsm.gConf.IsConfederationMember( requires !asnNegotiationSkipped ==> conf.State.PeerType == conf.Config.PeerType
+//@   at-call fsm.gConf.IsConfederationMember( requires conf.State.PeerAs == remoteAS
 
 // from C08: "the OPEN sent reflects the configuration (AS_TRANS for 4-octet local AS)"
 //@ func buildopen
